@@ -21,7 +21,10 @@ RULE = ("one case = a history of 2-6 runs on one real recorder (successful, rais
         "one of whose classes is registered with a sampling rate that is not a number (None / text / list, as an unconverted "
         "configuration value: the end of such a run fails while comparing the draw with the rate) followed by runs of other "
         "classes, of the same class and replays (implementation-side only: idle after every run, last run as on a fresh "
-        "recorder); "
+        "recorder); a stored recording changed under its id through the cassette API between two replays on one recorder (key "
+        "added / removed / replaced, missing-key policies, memory and file cassette; kind repatched, implementation only): the "
+        "second replay equals the same replay on a fresh recorder; histories of one interpreter whose inputs get "
+        "equal-but-differently-typed arguments, every replay also run in a fresh interpreter and compared; "
         "non-trivial = history of >= 2 runs; distinct = distinct history")
 ASSUMPTIONS = ["the thread-local interception flag is observed on the driver thread only",
                "threads: as for C04/C05 - the methods that touch the active recording are modelled access by access "
